@@ -31,6 +31,22 @@ func genC08(r *core.Rng, id int) *c08Case {
 	oo.MaxOps = 4
 	d := gen.RandomDoc(r, s, oo)
 	defs := d.Defs()
+	if id%3 == 0 {
+		// FOUR custom scalars (bound below to types of four same-named packages), each returned by
+		// a root field, all selected by one operation: three or more imports compete for the
+		// aliases types, types2, types3, ... in whatever order the generator meets them
+		if q := s.Get("Query"); q != nil && s.Get("HzSc1") == nil {
+			sel := ""
+			for i := 1; i <= 4; i++ {
+				n := fmt.Sprintf("HzSc%d", i)
+				s.Types = append(s.Types, &gen.TypeDef{Kind: "SCALAR", Name: n})
+				q.Fields = append(q.Fields, &gen.FieldDef{Name: fmt.Sprintf("hzSc%d", i), Type: gen.Named(n, i%2 == 0)})
+				sel += fmt.Sprintf("  hzSc%d\n", i)
+			}
+			s.Reindex()
+			defs = append(defs, &gen.Def{Kind: "query", Name: "HzImports", Text: "query HzImports {\n" + sel + "}\n"})
+		}
+	}
 	nf := 2 + r.Intn(3)
 	files, splits := gen.SplitSDL(r, s, nf)
 	cfg := &gen.CfgOpts{Export: true, Bindings: map[string]string{}}
